@@ -28,6 +28,14 @@ CHECKS["C19"] = ("vcheck", "proptest families of related RDATA; all ordered pair
     "Generated search with shrinking: 2-9 variants of one base RDATA (case flips, junk, truncation, one-octet changes) for every name-bearing type in four classes; reflexivity, symmetry, transitivity, agreement with the reference, and set insertion order/return values.",
     "Trusts vmodel::rdata::equal.", "§4 C19")
 
+_W = ("vcheck", "model-based stateful testing: proptest operation sequences over every Writer method, every prefix finished and decoded by an independent decoder and compared with a model message",
+    "Generated search with shrinking over operation sequences; each prefix is run on a fresh writer, so the check sees the message after every operation, knows the exact write position (for the no-spurious-truncation and limit obligations) and can assert that a failed operation changed nothing. TSIG MACs are recomputed with the independent RFC 8945 composition.",
+    "Trusts vmodel::wire/rdata/tsig; hints are used only as the documented contract allows.", "§4 C12")
+CHECKS["C12"] = _W
+CHECKS["C13"] = ("vcheck", "same operation-sequence generator as C12; invariant over the independent decoder's pointer log of every finished prefix",
+    "Generated search with shrinking; for every name of every finished prefix the emitted pointer must be strictly backwards, target the first octet of a label of an earlier name, not a pointer, and appear only where RFC 3597 §4 permits and never for names written while compression was disabled.",
+    "Trusts vmodel::wire's pointer log.", "§4 C13")
+
 NOT_YET = {}
 
 def main():
